@@ -204,6 +204,23 @@ def run(facts, R):
                 ok = True
         R.check(ok, "last-flag-table", path, "reader tests query.first() == Some(1)", "no `query.first().copied() == Some(1)` test found", b.span)
 
+    # ---------------- done-gate, release side: cancel removes the session so that a later `next` finds none (error)
+    ch = facts.body("<value_stream::CancelHandler as server::HandlerErased>::handle")
+    chs = Sym(ch)
+    crm = [(i, t) for i, t in ch.calls() if callee_matches(t["callee"], VS + "SessionTable::remove")]
+    R.check(len(crm) == 1, "done-gate", ch.path, "cancel removes the session", "CancelHandler has %d table.remove calls" % len(crm), ch.span)
+    for i, t in crm:
+        key = render_n(chs.op(t["args"][1]))
+        R.check(key.endswith(".stream_id") and "from_slice(arg2.body)" in key, "done-gate", ch.path, "cancel releases the stream it names", "remove(%s)" % key, t.get("span"), key[-60:])
+        okd = []
+        for x in sorted(ch.live_blocks()):
+            for f in facts_at(ch, chs, facts, x):
+                if str(f["val"]) == "Ok" and is_call(f["expr"], "from_slice") and not f.get("derived") and not f.get("merged"):
+                    okd.append(x)
+        heads = [(x, 0) for x in okd if any(p_ not in okd for p_ in ch.preds().get(x, []))]
+        w = must_cross(ch, heads, return_points(ch), [term_pt(ch, i)], after_start=False)
+        R.check(bool(heads) and w is None, "done-gate", ch.path, "a well-formed cancel always releases", "a decodable cancel can return without removing the session", t.get("span"), path=w)
+
     # ---------------- one-next-per-chunk: `next` is not idempotent (the server advances by one chunk per request it
     # handles), so a puller sends it exactly once per chunk: never re-sent after an error or timeout, and the chunk of
     # each answered request is consumed before the next request goes out
